@@ -72,6 +72,75 @@ theorem Env.at_cons_none_of_isObscured {e : Env} (ho : e.isObscured = true) (s :
     e.at (s :: p) = none :=
   Env.at_cons_none_of_child (Env.child_none_of_isObscured ho) s p
 
+/-! ### pointwise relation between two lists (core has no `List.Forall₂`) -/
+
+/-- `Forall₂ R as bs`: same length and `R` holds position by position -/
+inductive Forall₂ {α β : Type} (R : α → β → Prop) : List α → List β → Prop where
+  | nil : Forall₂ R [] []
+  | cons {a b as bs} : R a b → Forall₂ R as bs → Forall₂ R (a :: as) (b :: bs)
+
+namespace Forall₂
+variable {α β : Type} {R : α → β → Prop}
+
+theorem length_eq {as : List α} {bs : List β} (hf : Forall₂ R as bs) : as.length = bs.length := by
+  induction hf with
+  | nil => rfl
+  | cons _ _ ih => simp [ih]
+
+theorem eq_nil_iff {as : List α} {bs : List β} (hf : Forall₂ R as bs) : as = [] ↔ bs = [] := by
+  cases hf <;> simp
+
+theorem getElem?_left {as : List α} {bs : List β} (hf : Forall₂ R as bs) {i : Nat} {a : α}
+    (ha : as[i]? = some a) : ∃ b, bs[i]? = some b ∧ R a b := by
+  induction hf generalizing i with
+  | nil => simp at ha
+  | cons h1 _ ih =>
+    cases i with
+    | zero => simp at ha; subst ha; exact ⟨_, by simp, h1⟩
+    | succ i => simp at ha; simpa using ih ha
+
+theorem getElem?_right {as : List α} {bs : List β} (hf : Forall₂ R as bs) {i : Nat} {b : β}
+    (hb : bs[i]? = some b) : ∃ a, as[i]? = some a ∧ R a b := by
+  induction hf generalizing i with
+  | nil => simp at hb
+  | cons h1 _ ih =>
+    cases i with
+    | zero => simp at hb; subst hb; exact ⟨_, by simp, h1⟩
+    | succ i => simp at hb; simpa using ih hb
+
+theorem imp {S : α → β → Prop} {as : List α} {bs : List β} (hf : Forall₂ R as bs)
+    (hi : ∀ a b, a ∈ as → R a b → S a b) : Forall₂ S as bs := by
+  induction hf with
+  | nil => exact .nil
+  | cons h1 _ ih =>
+    exact .cons (hi _ _ (by simp) h1) (ih (fun a b ha hr => hi a b (by simp [ha]) hr))
+
+/-- build the second list from a function that is total on the members of the first -/
+theorem of_forall_exists {as : List α} (hx : ∀ a ∈ as, ∃ b, R a b) : ∃ bs, Forall₂ R as bs := by
+  induction as with
+  | nil => exact ⟨[], .nil⟩
+  | cons a as ih =>
+    obtain ⟨b, hb⟩ := hx a (by simp)
+    obtain ⟨bs, hbs⟩ := ih (fun x hm => hx x (by simp [hm]))
+    exact ⟨b :: bs, .cons hb hbs⟩
+
+theorem map_eq {γ : Type} {f : α → γ} {g : β → γ} {as : List α} {bs : List β}
+    (hf : Forall₂ (fun a b => g b = f a) as bs) : bs.map g = as.map f := by
+  induction hf with
+  | nil => rfl
+  | cons h1 _ ih => simp [h1, ih]
+
+/-- if the relation is functional, so is its lifting -/
+theorem right_unique {as : List α} {bs bs' : List β} (hf : Forall₂ R as bs) (hf' : Forall₂ R as bs')
+    (hu : ∀ a b b', R a b → R a b' → b = b') : bs = bs' := by
+  induction hf generalizing bs' with
+  | nil => cases hf'; rfl
+  | cons h1 _ ih =>
+    cases hf' with
+    | cons h1' h2' => rw [hu _ _ _ h1 h1', ih h2']
+
+end Forall₂
+
 /-! ### structural induction over `Env` -/
 
 section
@@ -106,5 +175,77 @@ theorem Env.inductList : (as : List Env) → ∀ a ∈ as, P a
     · exact Env.inductList bs a hm
 end
 end
+
+/-- induction over an envelope through `Env.child` -/
+theorem Env.induct_child {P : Env → Prop}
+    (H : ∀ e, (∀ s c, e.child s = some c → P c) → P e) : ∀ e, P e := by
+  intro e
+  induction e using Env.induct with
+  | hnode s as d ihs ihas =>
+    apply H; intro st c hc
+    cases st <;> simp only [Env.child, reduceCtorEq] at hc
+    · cases hc; exact ihs
+    · exact ihas c (List.mem_of_getElem? hc)
+  | hleaf c d => apply H; intro st c hc; cases st <;> simp [Env.child] at hc
+  | hwrapped e d ih =>
+    apply H; intro st c hc
+    cases st <;> simp only [Env.child, reduceCtorEq] at hc
+    cases hc; exact ih
+  | hassertion p o d ihp iho =>
+    apply H; intro st c hc
+    cases st <;> simp only [Env.child, reduceCtorEq] at hc
+    · cases hc; exact ihp
+    · cases hc; exact iho
+  | helided d => apply H; intro st c hc; cases st <;> simp [Env.child] at hc
+  | hknownValue v d => apply H; intro st c hc; cases st <;> simp [Env.child] at hc
+  | hencrypted m d => apply H; intro st c hc; cases st <;> simp [Env.child] at hc
+  | hcompressed c d => apply H; intro st c hc; cases st <;> simp [Env.child] at hc
+
+theorem Env.at_cons_some {e x : Env} {s : Step} {p : Path} (hx : e.at (s :: p) = some x) :
+    ∃ c, e.child s = some c ∧ c.at p = some x := by
+  rw [Env.at_cons] at hx
+  cases hc : e.child s with
+  | none => simp [hc] at hx
+  | some c => exact ⟨c, rfl, by simpa [hc] using hx⟩
+
+theorem Env.at_cons_of_child {e c : Env} {s : Step} (hc : e.child s = some c) (p : Path) :
+    e.at (s :: p) = c.at p := by
+  simp [Env.at_cons, hc]
+
+/-! ### positions and the element list -/
+
+theorem self_mem_elements (e : Env) : e ∈ elements e := by
+  cases e <;> simp [elements]
+
+theorem elements_sub_elementsList {a : Env} {as : List Env} (ha : a ∈ as) :
+    ∀ x ∈ elements a, x ∈ elementsList as := by
+  induction as with
+  | nil => cases ha
+  | cons b bs ih =>
+    intro x hx
+    simp only [elementsList, List.mem_append]
+    rcases List.mem_cons.mp ha with rfl | hm
+    · exact Or.inl hx
+    · exact Or.inr (ih hm x hx)
+
+theorem elements_child {e c : Env} {s : Step} (hc : e.child s = some c) :
+    ∀ x ∈ elements c, x ∈ elements e := by
+  intro x hx
+  cases e <;> cases s <;> simp only [Env.child, reduceCtorEq] at hc
+  case node.subj s as d => cases hc; simp [elements, hx]
+  case node.assertion s as d i =>
+    simp only [elements, List.mem_cons, List.mem_append]
+    exact Or.inr (Or.inr (elements_sub_elementsList (List.mem_of_getElem? hc) x hx))
+  case wrapped.inner e d => cases hc; simp [elements, hx]
+  case assertion.pred p o d => cases hc; simp [elements, hx]
+  case assertion.obj p o d => cases hc; simp [elements, hx]
+
+/-- every position holds an element of the structure walk -/
+theorem at_mem_elements {e x : Env} {p : Path} (hx : e.at p = some x) : x ∈ elements e := by
+  induction p generalizing e with
+  | nil => simp at hx; subst hx; exact self_mem_elements e
+  | cons s p ih =>
+    obtain ⟨c, hc, hx'⟩ := Env.at_cons_some hx
+    exact elements_child hc x (ih hx')
 
 end EnvVerif
